@@ -144,30 +144,47 @@ def mapResolverErr : Resolver.RErr → SEnd
   | .notImplemented => .fileErr "notimpl"
   | .handler => .fileErr "handler"
 
+/-- final-blocks-only with a cursor that is not on a final block -/
+def cursorRejected (cfg : SCfg) : Bool :=
+  cfg.finalOnly && (match cfg.cursor with | some c => !isOnFinalBlock c | none => false)
+
+/-- the source the stream starts on: live when the hub can serve the request at once, else files (+ resolver) -/
+def startBody (cfg : SCfg) (m0 : Sim) (abs : Nat) (bundles : List FileSourceSeq.Bundle)
+    (forks : List Resolver.ForkFile) : Sim :=
+  match liveBurst cfg m0 abs with
+  | some b => { m0 with joined := true, liveQ := b }
+  | none =>
+    let m := { m0 with lowest := hubLowest m0.hub }
+    match cfg.cursor with
+    | none =>
+      let (blks, fe) := FileSourceSeq.run ⟨abs, cfg.stop, cfg.bundleSize, []⟩ bundles none
+      { m with fileQ := blks.map (Resolver.fileEv .newIrreversible), fileEnd := mapFileEnd fe }
+    | some c =>
+      let fstart := if cfg.cursorIsTarget then abs else c.lib.num
+      let (blks, fe) := FileSourceSeq.run ⟨fstart, cfg.stop, cfg.bundleSize, []⟩ bundles none
+      let (evs, re) := Resolver.run forks c cfg.cursorIsTarget blks
+      { m with fileQ := evs, fileEnd := match re with | some e => some (mapResolverErr e) | none => mapFileEnd fe }
+
+/-- the hub as the stream finds it, and the resolved absolute start -/
+def hubAtStart (hubCfg : Forkable.Config) (pushes : List Push) : Sim :=
+  ({ hub := Forkable.init hubCfg, hubCfg := hubCfg, pushes := pushes } : Sim).applyPushes .before
+
+def absStart (cfg : SCfg) (hubCfg : Forkable.Config) (pushes : List Push) : Nat :=
+  resolveStart cfg.start (headNum (hubAtStart hubCfg pushes).hub) cfg.fsb
+
+/-- the state in which the simulation starts: `none` = the options are rejected (invalid argument) -/
+def startSim (cfg : SCfg) (hubCfg : Forkable.Config) (bundles : List FileSourceSeq.Bundle)
+    (forks : List Resolver.ForkFile) (pushes : List Push) : Option Sim :=
+  if cfg.stop > 0 && absStart cfg hubCfg pushes > cfg.stop then none
+  else if cursorRejected cfg then none
+  else some (startBody cfg (hubAtStart hubCfg pushes) (absStart cfg hubCfg pushes) bundles forks)
+
 /-- Stream.Run over the given stores, hub configuration and schedule of hub pushes -/
 def runStream (cfg : SCfg) (hubCfg : Forkable.Config) (bundles : List FileSourceSeq.Bundle)
     (forks : List Resolver.ForkFile) (pushes : List Push) : List Event × SEnd :=
-  let m0 : Sim := { hub := Forkable.init hubCfg, hubCfg := hubCfg, pushes := pushes }
-  let m0 := m0.applyPushes .before
-  let head := headNum m0.hub
-  let abs := resolveStart cfg.start head cfg.fsb
-  if cfg.stop > 0 && abs > cfg.stop then ([], .invalidArg)
-  else if cfg.finalOnly && (match cfg.cursor with | some c => !isOnFinalBlock c | none => false) then ([], .invalidArg)
-  else
-    let m1 : Sim :=
-      match liveBurst cfg m0 abs with
-      | some b => { m0 with joined := true, liveQ := b }
-      | none =>
-        let m := { m0 with lowest := hubLowest m0.hub }
-        match cfg.cursor with
-        | none =>
-          let (blks, fe) := FileSourceSeq.run ⟨abs, cfg.stop, cfg.bundleSize, []⟩ bundles none
-          { m with fileQ := blks.map (Resolver.fileEv .newIrreversible), fileEnd := mapFileEnd fe }
-        | some c =>
-          let fstart := if cfg.cursorIsTarget then abs else c.lib.num
-          let (blks, fe) := FileSourceSeq.run ⟨fstart, cfg.stop, cfg.bundleSize, []⟩ bundles none
-          let (evs, re) := Resolver.run forks c cfg.cursorIsTarget blks
-          { m with fileQ := evs, fileEnd := match re with | some e => some (mapResolverErr e) | none => mapFileEnd fe }
+  match startSim cfg hubCfg bundles forks pushes with
+  | none => ([], .invalidArg)
+  | some m1 =>
     let fuel := 4 * (pushes.length + (bundles.flatMap (·.blocks)).length + 10) + 50
     let mf := simLoop cfg fuel m1
     (mf.delivered, mf.ended.getD .stuck)
